@@ -1597,10 +1597,22 @@ add_mul_int(Type& to, const Type x, const Type y, Rounding_Dir dir) {
     if (to <= 0) {
       return set_neg_overflow_int<To_Policy>(to, dir);
     }
+    // Here to > 0 and x * y < min, so that to + x * y < to + min:
+    // when rounding upward this bound is a correct (inexact) result.
+    if (round_up(dir)) {
+      to += Extended_Int<To_Policy, Type>::min;
+      return V_LT;
+    }
     return assign_nan<To_Policy>(to, V_UNKNOWN_NEG_OVERFLOW);
   case 1:
     if (to >= 0) {
       return set_pos_overflow_int<To_Policy>(to, dir);
+    }
+    // Here to < 0 and x * y > max, so that to + x * y > to + max:
+    // when rounding downward this bound is a correct (inexact) result.
+    if (round_down(dir)) {
+      to += Extended_Int<To_Policy, Type>::max;
+      return V_GT;
     }
     return assign_nan<To_Policy>(to, V_UNKNOWN_POS_OVERFLOW);
   default:
@@ -1622,6 +1634,12 @@ sub_mul_int(Type& to, const Type x, const Type y, Rounding_Dir dir) {
     if (to >= 0) {
       return set_pos_overflow_int<To_Policy>(to, dir);
     }
+    // Here to < 0 and x * y < min, so that to - x * y > to - min:
+    // when rounding downward this bound is a correct (inexact) result.
+    if (round_down(dir)) {
+      to -= Extended_Int<To_Policy, Type>::min;
+      return V_GT;
+    }
     return assign_nan<To_Policy>(to, V_UNKNOWN_NEG_OVERFLOW);
   case 1:
     // Here x * y > max.  If to == 0 the result -(x * y) is below min
@@ -1631,6 +1649,13 @@ sub_mul_int(Type& to, const Type x, const Type y, Rounding_Dir dir) {
             && (Extended_Int<To_Policy, Type>::min
                 + Extended_Int<To_Policy, Type>::max >= 0))) {
       return set_neg_overflow_int<To_Policy>(to, dir);
+    }
+    // Here to > 0 and x * y > max, so that to - x * y < to - max:
+    // when rounding upward this bound is a correct (inexact) result
+    // (for a signed type: to - max would wrap around for an unsigned one).
+    if (round_up(dir) && Extended_Int<To_Policy, Type>::min < 0) {
+      to -= Extended_Int<To_Policy, Type>::max;
+      return V_LT;
     }
     return assign_nan<To_Policy>(to, V_UNKNOWN_POS_OVERFLOW);
   default:
